@@ -71,6 +71,11 @@ func runC12(r *Report, tier string) {
 	r.rule("R12.6", "digest-length check: success only for an unknown algorithm (hash id 0) or hash.Size() == len(value); the algorithm->hash table maps SHA-256/384/512 (and the PS/ES families) to SHA256/SHA384/SHA512 and everything else to 0.")
 	r.assumes("the Sign1 helper and Sign1Message.Verify obey C01-C04/C20 (checked there)", "maps.Clone returns a fresh map (shallow)")
 
+	// the three hash-envelope labels are the registered numbers
+	for n, v := range map[string]int64{"HeaderLabelPayloadHashAlgorithm": 258, "HeaderLabelPayloadPreimageContentType": 259, "HeaderLabelPayloadLocation": 260, "HeaderLabelContentType": 3} {
+		got, ok := P.constVal(n)
+		r.ob("R12.4", "const:"+n, nil, nil, fmt.Sprintf("%s == %d (IANA COSE header parameters)", n, v)).check(ok && got == v, itoa(got), fmt.Sprintf("%s = %d, the registered value is %d", n, got, v))
+	}
 	E := P.envelopeRoles()
 	r.analysed(E.sign, E.verify, E.rules, E.digest, E.hashAcc)
 	if E.setter != nil {
